@@ -282,6 +282,27 @@ theorem stepProbs_entry (rates : List Rat) (i : Nat) :
     (stepProbs rates)[i]? = (rates[i]?).map (· / rates.sum) := by
   simp [stepProbs]
 
+/-- **stepProbs_time_unit.**  A change of the unit of time - every rate multiplied by the same `c ≠ 0` - leaves the jump probabilities
+of the embedded chain unchanged.  With `exp_scale_mul` (a clock of rate `c·r` is the clock of rate `r` divided by `c`) this is why the
+law of the state at a requested time is the same numbers after "rates `* c`, times `/ c`": the relation the harness's unit-of-time
+cases rest on (the final-size law is a function of the `stepProbs` alone). -/
+theorem stepProbs_time_unit (rates : List Rat) (c : Rat) (hc : c ≠ 0) :
+    stepProbs (rates.map (c * ·)) = stepProbs rates := by
+  have hs : (rates.map (c * ·)).sum = c * rates.sum := by
+    induction rates with
+    | nil => simp
+    | cons a l ih => simp only [List.map_cons, List.sum_cons, ih]; ring
+  simp only [stepProbs, hs, List.map_map]
+  apply List.map_congr_left
+  intro r _
+  simp only [Function.comp]
+  exact mul_div_mul_left r _ hc
+
+/-- the hypothesis of `stepProbs_time_unit` is satisfiable and the statement is not vacuous: rates `[1, 3]` in a unit 1024 times
+shorter -/
+example : stepProbs ([1, 3].map ((1 / 1024 : Rat) * ·)) = [1 / 4, 3 / 4] := by
+  rw [stepProbs_time_unit _ _ (by norm_num)]; norm_num [stepProbs]
+
 /-- **finalSizePMF_sums_to_one.**  For every initial condition `(s0, i0)` and all `β ≥ 0`, `γ > 0`, `N > 0` the exact
 final-size vector computed by the level recursion has total mass one, one entry per possible size `0..s0`, and
 no mass is left in transient states. -/
